@@ -72,13 +72,28 @@ func genC13(g *G, n int, out io.Writer) {
 		w.line(1, yq(c.VName)+":")
 		w.line(2, "targetClass: ex.T")
 		w.line(2, "message: "+yq(c.Message))
-		w.line(2, "propertyConstraints:")
-		w.line(3, "ex.p0:")
 		var qs []string
 		for _, v := range c.ListVals {
 			qs = append(qs, yq(v))
 		}
-		w.line(4, c.Kind+": ["+strings.Join(qs, ", ")+"]")
+		if g.coin(0.3) {
+			// the same constraint as one alternative of an `or` whose other alternative is an embedded-Rego constraint that never
+			// holds: both land in one failure branch (one generated rule body), and the verdicts and messages are the same
+			w.line(2, "or:")
+			if g.coin(0.5) {
+				w.line(3, "- rego: \"$result = (1 == 2)\"")
+			}
+			w.line(3, "- propertyConstraints:")
+			w.line(5, "ex.p0:")
+			w.line(6, c.Kind+": ["+strings.Join(qs, ", ")+"]")
+			w.line(3, "- rego: |")
+			w.line(5, "c13_never = 3")
+			w.line(5, "$result = (c13_never == 4)")
+		} else {
+			w.line(2, "propertyConstraints:")
+			w.line(3, "ex.p0:")
+			w.line(4, c.Kind+": ["+strings.Join(qs, ", ")+"]")
+		}
 		c.Profile = w.b.String()
 		gr := Graph{
 			{Id: nodeId(1), Types: []string{NS + "T"}, Props: []Prop{{NS + "p0", []Val{VS("outside")}}, {NS + "p1", []Val{VS(v1)}}, {NS + "p2", []Val{VS(v2)}}}},
